@@ -138,6 +138,9 @@ type Hooks struct {
 	// before it starts closing; the hook's context is cancelled when the
 	// flows have completed or the horizon was reached.
 	WaitDuring bool
+	// OnAccepted is called after a Send of direction dir ('a' client->server,
+	// 'b' server->client) returned nil.
+	OnAccepted func(dir byte, i int)
 	// OnLeak is called inside the bubble when goroutines of the code under
 	// test are still alive after everything was closed. The bubble cannot
 	// be torn down in that state, so the callback is expected to record
@@ -235,8 +238,13 @@ func runScenBody(sc *Scen, h Hooks, res *ScenResult, settle func()) {
 		p.S2C.FailSendsAfter(sc.WriteErrS2C-1, 1, fmt.Errorf("write: transient transport error (injected)"))
 	}
 
-	fa, doneA := RunFlow(p.C, p.S, FlowSpec{Dir: 'a', Count: len(sc.SizesA), Size: sizeFn(sc.SizesA), Gap: gapFn(sc.GapsA), RecvGap: gapFn(sc.RecvGapsA)}, t0)
-	fb, doneB := RunFlow(p.S, p.C, FlowSpec{Dir: 'b', Count: len(sc.SizesB), Size: sizeFn(sc.SizesB), Gap: gapFn(sc.GapsB), RecvGap: gapFn(sc.RecvGapsB)}, t0)
+	var accA, accB func(int)
+	if h.OnAccepted != nil {
+		accA = func(i int) { h.OnAccepted('a', i) }
+		accB = func(i int) { h.OnAccepted('b', i) }
+	}
+	fa, doneA := RunFlow(p.C, p.S, FlowSpec{Dir: 'a', Count: len(sc.SizesA), Size: sizeFn(sc.SizesA), Gap: gapFn(sc.GapsA), RecvGap: gapFn(sc.RecvGapsA), OnAccepted: accA}, t0)
+	fb, doneB := RunFlow(p.S, p.C, FlowSpec{Dir: 'b', Count: len(sc.SizesB), Size: sizeFn(sc.SizesB), Gap: gapFn(sc.GapsB), RecvGap: gapFn(sc.RecvGapsB), OnAccepted: accB}, t0)
 	res.A, res.B = fa, fb
 
 	var dwg sync.WaitGroup
